@@ -56,6 +56,20 @@ def make_optimizer(kind):
     return {"qr": QR, "ccqr": CCQR, "gqr": GQR}[kind]()
 
 
+def copy_model(model, how):
+    """the model goes through pickle / copy – what comes back is used from then on"""
+    import copy
+    import pickle
+    if how == "pickle":
+        return pickle.loads(pickle.dumps(model))
+    if how == "deepcopy":
+        return copy.deepcopy(model)
+    return copy.copy(model)
+
+
+COPY_KINDS = ["pickle", "deepcopy", "copy"]
+
+
 def observe(model):
     def attr(f):
         try:
@@ -93,6 +107,11 @@ def run_real(h: History, probe=None):
                 _, v, di = op
                 x = None if di is None else h.datasets[di].copy()
                 model.update_n_basis_modes(v, x, quiet=True)
+            elif op[0] == "bfit":
+                # the basis OBJECT is fitted by somebody else (the documented prefit workflow, another model sharing it)
+                model.basis.fit(h.datasets[op[1]].copy())
+            elif op[0] == "copy":
+                model = copy_model(model, op[1])
             status = "ok"
         except Exception as e:
             status = "E:" + err_kind(e)
@@ -115,6 +134,11 @@ def to_request(h: History, real_out):
             toks += ["fit", str(ne), str(nf), "1" if prefit else "0", C.enc_nats(rk)]
         elif op[0] == "set":
             toks += ["set", enc_count(op[1])]
+        elif op[0] == "bfit":
+            ne, nf = h.datasets[op[1]].shape
+            toks += ["bfit", str(ne), str(nf)]
+        elif op[0] == "copy":
+            toks += ["copy"]
         else:
             _, v, di = op
             if di is None:
@@ -197,7 +221,7 @@ def gen_datasets(rng, same_shape=False, max_ex=7, max_feat=8):
 
 
 def gen_history(rng, max_ops=8, same_shape=False, allow_invalid=True, kinds=("fit", "set", "upd"), opt=None, basis=None,
-                ctor_invalid=False):
+                ctor_invalid=False, repeat_bias=0.0):
     basis = basis or rng.choice(models.BASIS_KINDS)
     datasets = gen_datasets(rng, same_shape=same_shape)
     ne0, nf0 = datasets[0].shape
@@ -236,14 +260,41 @@ def gen_history(rng, max_ops=8, same_shape=False, allow_invalid=True, kinds=("fi
                 if rng.random() < 0.15:
                     v = np.int32(v)
             ops.append(("set", v, rng.randint(0, 1)))
+        elif k == "bfit":
+            ops.append(("bfit", rng.randrange(len(datasets))))
+        elif k == "copy":
+            ops.append(("copy", rng.choice(COPY_KINDS)))
         else:
-            if allow_invalid and rng.random() < 0.25:
+            earlier = [o[1] for o in ops if o[0] == "upd" and isinstance(o[1], int)]
+            if repeat_bias and earlier and rng.random() < repeat_bias:
+                v = rng.choice(earlier)          # sweeps come back to the values they have already visited
+            elif allow_invalid and rng.random() < 0.25:
                 v = rng.choice(INVALID_COUNTS + [40])
             else:
                 v = rng.randint(1, max(d.shape[0] for d in datasets))
             di = None if rng.random() < 0.35 else rng.randrange(len(datasets))
             ops.append(("upd", v, di))
     return History(basis, n_modes, ctor_ns, opt, datasets, ops)
+
+
+def gen_sweep_history(rng):
+    """fit; a sweep of update_n_basis_modes; the basis object fitted OUTSIDE the model on other data (equal or different width);
+    optionally fit(prefit_basis=True) and a copy; the same sweep (or its reverse) again, cut at a random point"""
+    basis = rng.choice(["svd", "rp", "identity"])
+    ne = rng.randint(3, 6)
+    nf0 = rng.randint(3, 8)
+    nf1 = nf0 if rng.random() < 0.4 else rng.randint(3, 8)
+    ds = [np.array([[rng.randint(-6, 6) + rng.randint(-3, 3) / 4 for _ in range(nf)] for _ in range(ne)], dtype=float) for nf in (nf0, nf1)]
+    nm = rng.randint(2, min(ne, nf0, nf1)) if basis != "rp" else rng.randint(2, ne)
+    sweep = [rng.randint(1, nm) for _ in range(rng.randint(1, 3))]
+    ops = [("fit", 0, False, rng.choice([None, 0, 3]))] + [("upd", k, None) for k in sweep] + [("bfit", 1)]
+    if rng.random() < 0.5:
+        ops.append(("fit", 1, True, rng.choice([None, 0, 3])))
+    if rng.random() < 0.3:
+        ops.append(("copy", rng.choice(COPY_KINDS)))
+    again = list(sweep) if rng.random() < 0.6 else list(reversed(sweep))
+    ops += [("upd", k, None) for k in again[: rng.randint(1, len(again))]]
+    return History(basis, nm, rng.choice([None, None, rng.randint(1, min(nf0, nf1))]), rng.choice(["qr", "ccqr", "gqr"]), ds, ops)
 
 
 def _ev(x):
